@@ -1,12 +1,13 @@
-import PydraModel.Hash.LemmasSort3
+import PydraModel.Hash.LemmasDigestSort
 import PydraModel.Hash.LemmasEnc
 /-
 Specification side of C07 / C08:
 
   * `Equiv v w`      same type and content: identities (`id`) ignored, set elements and dict items up to permutation;
-  * `sortable v`     (decidable) every set's elements are scalars, every dict's / object's keys are scalars, and Python's
-                     `<` answers on them and is a strict total order on them (no two equal) — what `sorted` needs to be a
-                     function of the multiset.  Its negation is the match rule of finding D6;
+  * `sortable v`     (decidable) on the keys of every dict and on the attribute names of every object Python's `<` answers
+                     and is a strict total order (no two equal) — what `sorted(mapping)` needs to be a function of the
+                     key set.  Sets need nothing since fix 847ae56e (elements ordered by their digests).  Its negation is
+                     the match rule of finding D68 (dict keys of mutually unorderable classes: TypeError);
   * `inG0 v`         (decidable) the grammar of the discrimination theorem.
 -/
 namespace PydraModel.Hash
@@ -108,17 +109,15 @@ end
 notation:50 v " ≃ₚ " w => Equiv v w
 
 mutual
-/-- decidable hypothesis of the order-independence theorems (its negation: finding D6) -/
+/-- decidable hypothesis of the order-independence theorems: only dict keys / attribute names are still compared with `<`
+    (its negation: finding D68) -/
 def sortable : PyVal → Bool
   | .sc _ => true
   | .path _ _ => true
   | .ndarray _ _ _ _ => true
   | .ty _ => true
   | .seq _ _ xs => sortableList xs
-  | .set _ _ xs =>
-    (match asScalars xs with
-     | some ks => keysOK ks
-     | none => false)
+  | .set _ _ xs => sortableList xs       -- set elements are ordered by their digests: nothing to require (fix 847ae56e)
   | .dict _ items => keysOK (items.map (·.1)) && sortableItems items
   | .obj _ _ fields => keysOK (fields.map (·.1)) && sortableItems fields
   | .func _ _ code _ _ => sortableList code
